@@ -622,6 +622,11 @@ func c19SingleDocs() []c19Doc {
 	add("item+para", ul(nest(it(tx("a")), para(tx("b"))), it(tx("1"))))
 	add("item+fence", ul(nest(it(tx("a")), c19Blk{K: "fence", Lines: []string{"b", " 1"}})))
 	add("item+quote", ul(nest(it(tx("a")), c19Blk{K: "quote", Kids: []c19Blk{para(tx("b"))}})))
+	// indented code inside containers, with lines that carry indentation of their own
+	add("item+indent", ul(nest(it(tx("a")), c19Blk{K: "indent", Lines: []string{"  b", "1"}})))
+	add("item+indent-deep", ul(nest(it(tx("a")), c19Blk{K: "indent", Lines: []string{"b", "    1", "  漢"}})))
+	add("ol-item+indent", ol(nest(it(tx("a")), c19Blk{K: "indent", Lines: []string{"  b"}})))
+	add("nested-item+indent", ul(nest(it(tx("a")), ul(nest(it(tx("b")), c19Blk{K: "indent", Lines: []string{"  1", "漢"}})))))
 	add("task-x", ul(chk(2, tx("a"))))
 	add("task-o", ul(chk(1, tx("a"))))
 	add("task-xo", ul(chk(2, tx("a")), chk(1, tx("b"))))
@@ -636,6 +641,7 @@ func c19SingleDocs() []c19Doc {
 	add("quote>h", q(head(2, tx("a")), para(tx("b"))))
 	add("quote>fence", q(para(tx("a")), c19Blk{K: "fence", Lines: []string{"b", " 1"}}))
 	add("quote>quote", q(para(tx("a")), q(para(tx("b")))))
+	add("quote>indent", q(para(tx("a")), c19Blk{K: "indent", Lines: []string{"  b", "1"}}))
 	add("quote>p+ul", q(para(tx("a")), ul(it(tx("b")))))
 	codes := [][]string{{"a"}, {"a", "b"}, {"  a"}, {"a", "", "b"}, {"\ta"}, {"a", "    b", "", "  1"}, {"a b", " 1  漢"}}
 	for i, ls := range codes {
@@ -795,6 +801,21 @@ func c19SigList(vs []rep.Violation) string {
 	return strings.Join(ss, " ")
 }
 
+// c19TabIndent rewrites the leading spaces of every line with tabs (one tab per four columns).
+func c19TabIndent(md string) string {
+	lines := strings.Split(md, "\n")
+	for i, l := range lines {
+		n := 0
+		for n < len(l) && l[n] == ' ' {
+			n++
+		}
+		if n >= 4 {
+			lines[i] = strings.Repeat("\t", n/4) + strings.Repeat(" ", n%4) + l[n:]
+		}
+	}
+	return strings.Join(lines, "\n")
+}
+
 func c19JudgeAgain(md string, o c19Opt, exp *c19Expect) string {
 	doc, what, _ := c19Convert([]byte(md), o)
 	if what != "" {
@@ -895,6 +916,22 @@ func c19FidWorker(c *shard.Ctx) {
 						first := strings.SplitN(strings.Fields(sig)[0], "|", 2)[0]
 						c.P.Outcome("crlf-differs")
 						report(rep.Violation{Sig: "line-endings|crlf|" + first, Clause: "line-endings", What: "with LF line endings the conversion is faithful, with CR LF line endings it is not: " + sig})
+					}
+				}
+			}
+			if len(vs) == 0 && o.isDefault() {
+				// the same document with its leading indentation written with tabs (tab stop 4, as CommonMark
+				// defines it): used only when the third-party parser reads it as the same tree
+				if tabbed := c19TabIndent(md); tabbed != md && c19CanonAST([]byte(tabbed)) == c19CanonTree(d.Blocks) {
+					c.P.Evals++
+					c.P.Transitions++
+					c.P.Add("fidelity_conversions_tab_indent", 1)
+					if sig := c19JudgeAgain(tabbed, o, exp); sig != "" {
+						if again := c19JudgeAgain(tabbed, o, exp); again == sig {
+							first := strings.SplitN(strings.Fields(sig)[0], "|", 2)[0]
+							c.P.Outcome("tab-indent-differs")
+							report(rep.Violation{Sig: "indentation|tabs|" + first, Clause: "indentation", What: fmt.Sprintf("with spaces the conversion is faithful, with the same indentation written with tabs (%q) it is not: %s", tabbed, sig)})
+						}
 					}
 				}
 			}
